@@ -17,5 +17,5 @@ PY
 fi
 rsync -a --delete --exclude go.sum --exclude testdata /verif/harness/ $D/harness/
 cp -n /repo/go.sum $D/harness/go.sum 2>/dev/null
-rm -f $D/out/*
+rm -f $D/out/*; rm -rf $D/harness/testdata
 cd $D/harness && VERIF_OUT=$D/out VERIF_SRC=$D/src VERIF_DIR=/verif $GO test -vet=off -tags $TAGS "$@"
